@@ -1,3 +1,6 @@
+import DaeVerif.C09.FwdModel
+import DaeVerif.C09.UdpModel
+import DaeVerif.C09.CtlModel
 /-!
 # C09 — DNS concurrency: executable models (core-only)
 
@@ -14,600 +17,6 @@ Four models, each mirroring one mechanism of `/repo/control`:
            singleflight leader/follower, upstream attempt with UDP→TCP fallback, the question check,
            cache insert, ID patching on every write path.
 
-Nothing here imports Mathlib: the line-protocol driver (`Main.lean`) executes these definitions.
+The models live in `FwdModel.lean`, `UdpModel.lean`, `PipeModel.lean`, `CtlModel.lean` (one file each so
+that a change to one does not re-check the proofs of the others).  Nothing here imports Mathlib: the line-protocol driver (`Main.lean`) executes these definitions.
 -/
-namespace DaeVerif.C09
-
-/-! ## Shared list helper -/
-
-/-- `l.set t q` changes the number of elements satisfying `f` by exactly the old and new element. -/
-theorem countP_set_add {α} (f : α → Bool) : ∀ (l : List α) (t : Nat) (p q : α), l[t]? = some p →
-    (l.set t q).countP f + (if f p then 1 else 0) = l.countP f + (if f q then 1 else 0)
-  | [], t, p, q, h => by simp at h
-  | a :: l, 0, p, q, h => by
-    simp only [List.getElem?_cons_zero, Option.some.injEq] at h
-    subst h
-    simp only [List.set_cons_zero, List.countP_cons]
-    omega
-  | a :: l, t + 1, p, q, h => by
-    simp only [List.getElem?_cons_succ] at h
-    have ih := countP_set_add f l t p q h
-    simp only [List.set_cons_succ, List.countP_cons]
-    omega
-
-namespace Fwd
-
-/-! ## `Fwd` — the cached forwarder entry
-
-One `Pc` per goroutine that holds a reference to the entry.  Every constructor between two calls is
-one atomic operation of the Go code (an `atomic` load/store/add, or `closeOnce.Do`). -/
-
-inductive Pc where
-  | idle
-  /-- `beginUse`: about to `retired.Load()` (first check). -/
-  | b1
-  /-- `beginUse`: about to `inFlight.Add(1)`. -/
-  | b2
-  /-- `beginUse`: about to `retired.Load()` (second check). -/
-  | b3
-  /-- `beginUse`: saw `retired`, about to `inFlight.Add(-1)`. -/
-  | b4
-  /-- `beginUse`: decremented to 0, about to `closeNow()`. -/
-  | b5
-  /-- `beginUse` returned `true`; `ForwardDNS` runs; `endUse` not yet called. -/
-  | busy
-  /-- `endUse`: about to `inFlight.Add(-1)`. -/
-  | e1
-  /-- `endUse`: decremented to 0, about to `retired.Load()`. -/
-  | e2
-  /-- `endUse` (repaired code only): saw `retired`, about to re-read `inFlight.Load()`. -/
-  | e2r
-  /-- `endUse`: about to `closeNow()`. -/
-  | e3
-  /-- `retire`: about to `retired.Store(true)`. -/
-  | r1
-  /-- `retire`: about to `inFlight.Load()`. -/
-  | r2
-  /-- `retire`: about to `closeNow()`. -/
-  | r3
-  /-- `evictIdleDnsForwarders`: about to `inFlight.Load()` (skip when > 0). -/
-  | v1
-  /-- evictor: idle test passed, about to `CompareAndDelete` the entry from the cache. -/
-  | v2
-  /-- evictor (unrepaired code only): about to call `entry.forwarder.Close()` directly. -/
-  | v3
-  /-- `retireCachedDnsForwarder` / `retireAllDnsForwarders`: about to `CompareAndDelete`. -/
-  | c1
-  deriving DecidableEq, Repr, Inhabited
-
-/-- How `endUse` is modelled. -/
-inductive EndUse where
-  /-- the code as written: `inFlight.Add(-1) == 0`, then (separately) `retired.Load()`, then close -/
-  | split
-  /-- a repaired `endUse` that re-reads `inFlight` after it has seen `retired` -/
-  | recheck
-  /-- abstraction: the decrement and the `retired` load are one indivisible step -/
-  | atomic
-  deriving DecidableEq, Repr
-
-/-- Which variant of the code is modelled (the tie decides which one `/repo` is). -/
-structure Cfg where
-  endUse : EndUse
-  /-- the idle evictor closes through `retire()` (fix f004946) instead of calling
-  `forwarder.Close()` itself (the code before that fix). -/
-  evictRetires : Bool
-  deriving DecidableEq, Repr
-
-structure St where
-  /-- `cachedDnsForwarder.inFlight` -/
-  inFlight : Int
-  /-- `cachedDnsForwarder.retired` -/
-  retired : Bool
-  /-- `closeOnce` has fired -/
-  once : Bool
-  /-- number of times `forwarder.Close()` actually ran -/
-  closes : Nat
-  /-- the entry is still stored in `dnsForwarderCache` -/
-  inCache : Bool
-  /-- `ForwardDNS` calls issued on a forwarder whose `Close()` had already run -/
-  badUses : Nat
-  pcs : List Pc
-  deriving DecidableEq, Repr
-
-def init (n : Nat) : St :=
-  { inFlight := 0, retired := false, once := false, closes := 0, inCache := true, badUses := 0,
-    pcs := List.replicate n .idle }
-
-def St.setPc (s : St) (t : Nat) (p : Pc) : St := { s with pcs := s.pcs.set t p }
-
-/-- `closeNow`: `closeOnce.Do(forwarder.Close)`. -/
-def St.closeNow (s : St) : St :=
-  if s.once then s else { s with once := true, closes := s.closes + 1 }
-
-inductive Act where
-  /-- an idle goroutine calls `beginUse()` -/
-  | callBegin (t : Nat)
-  /-- a goroutine whose `beginUse` returned true has finished `ForwardDNS` and calls `endUse()` -/
-  | callEnd (t : Nat)
-  /-- an idle goroutine calls `retire()` directly (`retireAll…`, tests) -/
-  | callRetire (t : Nat)
-  /-- an idle goroutine calls `retireCachedDnsForwarder` (CompareAndDelete, then `retire()`) -/
-  | callRetireCached (t : Nat)
-  /-- the janitor goroutine examines this entry in `evictIdleDnsForwarders` -/
-  | callEvict (t : Nat)
-  /-- a goroutine in `busy` issues `entry.forwarder.ForwardDNS` -/
-  | forward (t : Nat)
-  /-- goroutine `t` performs its next atomic operation -/
-  | step (t : Nat)
-  deriving DecidableEq, Repr
-
-/-- The next atomic operation of goroutine `t`. -/
-def stepPc (cfg : Cfg) (s : St) (t : Nat) : St :=
-  match s.pcs[t]? with
-  | none => s
-  | some p =>
-    match p with
-    | .idle => s
-    | .busy => s
-    | .b1 => if s.retired then s.setPc t .idle else s.setPc t .b2
-    | .b2 => { s with inFlight := s.inFlight + 1 }.setPc t .b3
-    | .b3 => if s.retired then s.setPc t .b4 else s.setPc t .busy
-    | .b4 =>
-      if s.inFlight - 1 = 0 then { s with inFlight := s.inFlight - 1 }.setPc t .b5
-      else { s with inFlight := s.inFlight - 1 }.setPc t .idle
-    | .b5 => s.closeNow.setPc t .idle
-    | .e1 =>
-      if s.inFlight - 1 = 0 then
-        if cfg.endUse = .atomic then
-          (if s.retired then { s with inFlight := s.inFlight - 1 }.setPc t .e3
-           else { s with inFlight := s.inFlight - 1 }.setPc t .idle)
-        else { s with inFlight := s.inFlight - 1 }.setPc t .e2
-      else { s with inFlight := s.inFlight - 1 }.setPc t .idle
-    | .e2 =>
-      if s.retired then (if cfg.endUse = .recheck then s.setPc t .e2r else s.setPc t .e3)
-      else s.setPc t .idle
-    | .e2r => if s.inFlight = 0 then s.setPc t .e3 else s.setPc t .idle
-    | .e3 => s.closeNow.setPc t .idle
-    | .r1 => { s with retired := true }.setPc t .r2
-    | .r2 => if s.inFlight = 0 then s.setPc t .r3 else s.setPc t .idle
-    | .r3 => s.closeNow.setPc t .idle
-    | .v1 => if s.inFlight > 0 then s.setPc t .idle else s.setPc t .v2
-    | .v2 =>
-      if s.inCache then
-        (if cfg.evictRetires then { s with inCache := false }.setPc t .r1
-         else { s with inCache := false }.setPc t .v3)
-      else s.setPc t .idle
-    | .v3 => { s with closes := s.closes + 1 }.setPc t .idle
-    | .c1 => if s.inCache then { s with inCache := false }.setPc t .r1 else s.setPc t .idle
-
-def step (cfg : Cfg) (s : St) : Act → St
-  | .callBegin t => if s.pcs[t]? = some .idle then s.setPc t .b1 else s
-  | .callEnd t => if s.pcs[t]? = some .busy then s.setPc t .e1 else s
-  | .callRetire t => if s.pcs[t]? = some .idle then s.setPc t .r1 else s
-  | .callRetireCached t => if s.pcs[t]? = some .idle then s.setPc t .c1 else s
-  | .callEvict t => if s.pcs[t]? = some .idle then s.setPc t .v1 else s
-  | .forward t =>
-    if s.pcs[t]? = some .busy then
-      (if s.closes > 0 then { s with badUses := s.badUses + 1 } else s)
-    else s
-  | .step t => stepPc cfg s t
-
-def run (cfg : Cfg) (s : St) (as : List Act) : St := as.foldl (step cfg) s
-
-/-- A goroutine runs a whole call to completion without interleaving (what a harness that calls the
-Go methods one after the other observes).  Bounded by the longest call (6 operations). -/
-def finishCall (cfg : Cfg) (s : St) (t : Nat) : St :=
-  (List.range 8).foldl (fun s _ => stepPc cfg s t) s
-
-/-- Program points at which the Go code has a `verifYield` (or returns): goroutine `t` is run up to
-the next one.  `c1`, `r1`, `v1`, `v2`, `e1`, `b1` are followed by no yield, so they are passed. -/
-def atYield : Pc → Bool
-  | .idle | .busy | .b2 | .b3 | .b4 | .b5 | .e2 | .e2r | .e3 | .r2 | .r3 | .v3 => true
-  | _ => false
-
-/-- Run goroutine `t` until it stands at a yield point or has returned (at least one operation). -/
-def stepToYield (cfg : Cfg) (s : St) (t : Nat) : St :=
-  let rec go : Nat → St → St
-    | 0, s => s
-    | fuel + 1, s =>
-      let s' := stepPc cfg s t
-      match s'.pcs[t]? with
-      | some p => if atYield p then s' else go fuel s'
-      | none => s'
-  go 6 s
-
-/-- The code as it is in `/repo` today. -/
-def codeCfg : Cfg := { endUse := .recheck, evictRetires := true }
-
-end Fwd
-
-/-! ## `Udp` — the receive loop of `DoUDP.ForwardDNS`
-
-A pooled socket is a queue of pending read events.  `forward` mirrors one call: write the request,
-then read until a datagram carries the request's ID; shorter-than-2-byte datagrams and datagrams
-with another ID are skipped, at most `maxStale` of them. -/
-namespace Udp
-
-/-- what `Msg.Unpack` yields besides the ID -/
-structure Body where
-  /-- question token (name and type as sent by the upstream) -/
-  q : Nat
-  tc : Bool
-  /-- answer payload token -/
-  tag : Nat
-  deriving DecidableEq, Repr
-
-inductive Ev where
-  /-- a datagram shorter than two bytes -/
-  | short
-  /-- a datagram whose first two bytes are `id`; `body = none` when `Unpack` rejects it -/
-  | dgram (id : Nat) (body : Option Body)
-  /-- the read deadline passes -/
-  | timeout
-  /-- any other read error -/
-  | ioerr
-  deriving DecidableEq, Repr
-
-inductive Out where
-  | ok (id : Nat) (b : Body)
-  | truncated (id : Nat) (b : Body)
-  | timeout
-  | ioerr
-  | staleFlood
-  | shortFlood
-  | unpackErr
-  | writeErr
-  deriving DecidableEq, Repr
-
-structure Res where
-  out : Out
-  /-- the socket goes back to the idle pool (otherwise it was discarded = closed) -/
-  kept : Bool
-  /-- number of read events consumed -/
-  reads : Nat
-  deriving DecidableEq, Repr
-
-def maxStale : Nat := 8
-
-/-- `dot` = `profile.DiscardPooledConnOnTimeout`.  An exhausted queue reads as a timeout. -/
-def loop (orig : Nat) (dot : Bool) : List Ev → Nat → Nat → Res
-  | [], _, reads => ⟨.timeout, !dot, reads + 1⟩
-  | .timeout :: _, _, reads => ⟨.timeout, !dot, reads + 1⟩
-  | .ioerr :: _, _, reads => ⟨.ioerr, false, reads + 1⟩
-  | .short :: rest, stale, reads =>
-    if stale + 1 > maxStale then ⟨.shortFlood, false, reads + 1⟩ else loop orig dot rest (stale + 1) (reads + 1)
-  | .dgram id body :: rest, stale, reads =>
-    if id ≠ orig then
-      (if stale + 1 > maxStale then ⟨.staleFlood, false, reads + 1⟩ else loop orig dot rest (stale + 1) (reads + 1))
-    else
-      match body with
-      | none => ⟨.unpackErr, false, reads + 1⟩
-      | some b => if b.tc then ⟨.truncated id b, true, reads + 1⟩ else ⟨.ok id b, true, reads + 1⟩
-
-def forward (orig : Nat) (dot writeOk : Bool) (q : List Ev) : Res :=
-  if writeOk then loop orig dot q 0 0 else ⟨.writeErr, false, 0⟩
-
-/-- A pooled socket across several calls: what is still queued when the socket is reused. -/
-structure Sock where
-  queue : List Ev
-  /-- number of sockets dialled so far (a discarded socket is replaced by a fresh, empty one) -/
-  gen : Nat
-  deriving DecidableEq, Repr
-
-inductive Op where
-  /-- the network delivers an event to the socket currently pooled -/
-  | push (e : Ev)
-  /-- one `ForwardDNS(orig)` on the pooled socket -/
-  | fwd (orig : Nat) (dot writeOk : Bool)
-  deriving DecidableEq, Repr
-
-def apply (s : Sock) : Op → Sock × Option Res
-  | .push e => ({ s with queue := s.queue ++ [e] }, none)
-  | .fwd orig dot w =>
-    let r := forward orig dot w s.queue
-    if r.kept then ({ s with queue := s.queue.drop r.reads }, some r)
-    else ({ queue := [], gen := s.gen + 1 }, some r)
-
-/-- results of all calls of a history -/
-def results : Sock → List Op → List (Nat × Res)
-  | _, [] => []
-  | s, .push e :: ops => results (apply s (.push e)).1 ops
-  | s, .fwd orig dot w :: ops =>
-    (orig, forward orig dot w s.queue) :: results (apply s (.fwd orig dot w)).1 ops
-
-end Udp
-
-/-! ## `Ctl` — the controller glue: cache, singleflight, upstream attempt(s), question check, ID patch
-
-Mirrors `HandleWithResponseWriter_`, `resolveForSingleflight`, `handleWithResponseWriter_`,
-`dialSend`, `forwardWithFallback`, `NormalizeAndCacheDnsResp_`, `writeCachedResponse`
-(`dns_control.go`).  Goroutine interleaving is at the granularity of the three blocking points of a
-client: arrival (route, cache lookup, `sf.Do` entry), the leader's upstream exchange, and the wake-up
-after `sf.Do` returns. -/
-namespace Ctl
-
-structure Question where
-  /-- canonical (lower-cased, fully qualified) name, as a token -/
-  name : Nat
-  /-- spelling variant of the name (0 = the canonical lower-case spelling) -/
-  spell : Nat
-  qtype : Nat
-  deriving DecidableEq, Repr, Inhabited
-
-/-- the same question up to the case of the name (what `cacheKey` and fix b94e062 compare) -/
-def Question.same (a b : Question) : Bool := a.name == b.name && a.qtype == b.qtype
-
-/-- the spelling the cache stores and serves (`prepackResponseBeforeStore(fqdn lower-cased, …)`) -/
-def Question.canon (a : Question) : Question := { a with spell := 0 }
-
-/-- `responseCacheKey`: canonical name, type, routing scope -/
-structure Key where
-  name : Nat
-  qtype : Nat
-  scope : Nat
-  deriving DecidableEq, Repr, Inhabited
-
-inductive Route where
-  | forward
-  /-- request routing says `reject` -/
-  | reject
-  deriving DecidableEq, Repr
-
-inductive Scheme where
-  | udp | tcp | tcpudp
-  deriving DecidableEq, Repr
-
-structure Client where
-  id : Nat
-  q : Question
-  scope : Nat
-  route : Route
-  deriving DecidableEq, Repr
-
-def Client.key (c : Client) : Key := ⟨c.q.name, c.q.qtype, c.scope⟩
-
-/-- a message as an upstream may send it (anything at all) -/
-structure UpMsg where
-  id : Nat
-  q : Option Question
-  resp : Bool
-  rcode : Nat
-  tc : Bool
-  /-- answer payload token (0 = empty answer section) -/
-  ans : Nat
-  deriving DecidableEq, Repr, Inhabited
-
-/-- outcome of one `ForwardDNS` call as the transport reports it -/
-inductive Att where
-  | fail
-  | msg (m : UpMsg)
-  deriving DecidableEq, Repr, Inhabited
-
-inductive Src where
-  /-- built from the client's own message (reject, refused, error replies) -/
-  | own
-  /-- pre-packed cache entry with the ID patched -/
-  | cache
-  /-- the (shared) upstream message, copied or re-packed, with the ID patched -/
-  | upstream
-  deriving DecidableEq, Repr
-
-structure Reply where
-  id : Nat
-  q : Option Question
-  rcode : Nat
-  tc : Bool
-  ans : Nat
-  src : Src
-  deriving DecidableEq, Repr
-
-inductive ErrKind where
-  /-- transport failure (after fallback, if any) -/
-  | upstream
-  /-- `ErrDNSTruncated` (UDP answer had TC=1 and no TCP fallback succeeded) -/
-  | truncated
-  /-- `ErrDNSResponseQuestionMismatch` (fix b94e062) -/
-  | mismatch
-  /-- `ResponseSelect`: "DNS response expected but DNS request received" (QR bit clear) -/
-  | notResponse
-  deriving DecidableEq, Repr
-
-/-- what `HandleWithResponseWriter_` did for one client -/
-inductive Outcome where
-  | wrote (r : Reply)
-  | error (e : ErrKind)
-  deriving DecidableEq, Repr
-
-structure Entry where
-  /-- question section of the packed bytes (canonical spelling of the upstream's question) -/
-  q : Question
-  ans : Nat
-  deriving DecidableEq, Repr
-
-inductive DRes where
-  | err (e : ErrKind)
-  | ok (m : UpMsg)
-  deriving DecidableEq, Repr
-
-structure Flight where
-  key : Key
-  leader : Nat
-  result : Option DRes
-  deriving DecidableEq, Repr
-
-inductive Pc where
-  | init
-  | leading (f : Nat)
-  | waiting (f : Nat)
-  | done
-  deriving DecidableEq, Repr
-
-structure Cfg where
-  /-- `dialSend` refuses an answer whose question differs from the request's (fix b94e062) -/
-  checkQuestion : Bool
-  deriving DecidableEq, Repr
-
-def codeCfg : Cfg := { checkQuestion := true }
-
-structure St where
-  clients : List Client
-  pcs : List Pc
-  cache : List (Key × Entry)
-  /-- the singleflight map: key ↦ running flight -/
-  active : List (Key × Nat)
-  flights : List Flight
-  /-- everything written to / returned for clients, oldest first -/
-  outs : List (Nat × Outcome)
-  /-- upstream resolutions started: (flight, question sent) -/
-  calls : List (Nat × Question)
-  deriving Repr
-
-def lookup {β} (l : List (Key × β)) (k : Key) : Option β := (l.find? (fun p => p.1 == k)).map (·.2)
-def erase {β} (l : List (Key × β)) (k : Key) : List (Key × β) := l.filter (fun p => !(p.1 == k))
-def insert {β} (l : List (Key × β)) (k : Key) (v : β) : List (Key × β) := (k, v) :: erase l k
-
-def init (clients : List Client) : St :=
-  { clients := clients, pcs := clients.map fun _ => Pc.init, cache := [], active := [], flights := [],
-    outs := [], calls := [] }
-
-/-- `forwardWithFallback`: primary attempt, and for `tcp+udp` a TCP attempt when UDP failed or
-answered with TC=1 (`DoUDP.ForwardDNS` returns `ErrDNSTruncated`). -/
-def forwardWithFallback (sch : Scheme) (a1 a2 : Att) : DRes :=
-  match sch with
-  | .tcp =>
-    match a1 with
-    | .fail => .err .upstream
-    | .msg m => .ok m
-  | .udp =>
-    match a1 with
-    | .fail => .err .upstream
-    | .msg m => if m.tc then .err .truncated else .ok m
-  | .tcpudp =>
-    match a1 with
-    | .msg m =>
-      if m.tc then
-        (match a2 with
-         | .fail => .err .truncated
-         | .msg m2 => .ok m2)
-      else .ok m
-    | .fail =>
-      match a2 with
-      | .fail => .err .upstream
-      | .msg m2 => .ok m2
-
-/-- `dnsResponseAnswersRequest` -/
-def answersRequest (q : Question) (m : UpMsg) : Bool :=
-  match m.q with
-  | none => false
-  | some mq => q.same mq
-
-/-- `dialSend` for the singleflight leader (`needResp`, capturing writer): upstream exchange,
-question check, `respMsg.Id = id`, synchronous cache insert.  Returns the shared result and the
-new cache. -/
-def dialSend (cfg : Cfg) (c : Client) (sch : Scheme) (a1 a2 : Att) (cache : List (Key × Entry)) :
-    DRes × List (Key × Entry) :=
-  match forwardWithFallback sch a1 a2 with
-  | .err e => (.err e, cache)
-  | .ok m =>
-    if cfg.checkQuestion && !answersRequest c.q m then (.err .mismatch, cache)
-    else if !m.resp then (.err .notResponse, cache)
-    else
-      let m' := { m with id := c.id }
-      -- NormalizeAndCacheDnsResp_: only healthy responses with a question are cached, under the
-      -- REQUEST's key, with the RESPONSE's question
-      let cache' :=
-        match m.q with
-        | some mq => if m.resp && m.rcode == 0 then insert cache c.key (Entry.mk mq.canon m.ans) else cache
-        | none => cache
-      (.ok m', cache')
-
-def ownReply (c : Client) (rcode : Nat) (tc : Bool) : Reply :=
-  { id := c.id, q := some c.q, rcode := rcode, tc := tc, ans := 0, src := .own }
-
-/-- `writeCachedResponse`: packed bytes with the first two bytes overwritten -/
-def cachedReply (c : Client) (e : Entry) : Reply :=
-  { id := c.id, q := some e.q, rcode := 0, tc := false, ans := e.ans, src := .cache }
-
-/-- `respMsg.Copy(); Id = dnsMessage.Id` / `Pack(); PutUint16(data[:2], dnsMessage.Id)` -/
-def sharedReply (c : Client) (m : UpMsg) : Reply :=
-  { id := c.id, q := m.q, rcode := m.rcode, tc := m.tc, ans := m.ans, src := .upstream }
-
-def St.setPc (s : St) (i : Nat) (p : Pc) : St := { s with pcs := s.pcs.set i p }
-def St.emit (s : St) (i : Nat) (o : Outcome) : St := { s with outs := s.outs ++ [(i, o)] }
-
-inductive Act where
-  /-- client `i` enters `HandleWithResponseWriter_` and runs up to the cache answer or `sf.Do` -/
-  | arrive (i : Nat)
-  /-- the concurrency limiter is full when client `i` enters -/
-  | refuse (i : Nat)
-  /-- the leader of flight `f` finishes its upstream exchange with the given transport outcomes -/
-  | resolve (f : Nat) (sch : Scheme) (a1 a2 : Att)
-  /-- client `i` returns from `sf.Do` and writes its response -/
-  | wake (i : Nat)
-  /-- janitor / LRU / reject-route family removal drops a cache entry -/
-  | evict (k : Key)
-  deriving DecidableEq, Repr
-
-def step (cfg : Cfg) (s : St) : Act → St
-  | .refuse i =>
-    match s.clients[i]?, s.pcs[i]? with
-    | some c, some .init => (s.emit i (.wrote (ownReply c 5 false))).setPc i .done
-    | _, _ => s
-  | .arrive i =>
-    match s.clients[i]?, s.pcs[i]? with
-    | some c, some .init =>
-      match c.route with
-      | .reject =>
-        -- RemoveDnsRespCacheFamily(baseKey) + sendRejectWithResponseWriter_
-        let s := { s with cache := s.cache.filter fun p => !(p.1.name == c.q.name && p.1.qtype == c.q.qtype) }
-        (s.emit i (.wrote (ownReply c 0 false))).setPc i .done
-      | .forward =>
-        match lookup s.cache c.key with
-        | some e => (s.emit i (.wrote (cachedReply c e))).setPc i .done
-        | none =>
-          match lookup s.active c.key with
-          | some f => s.setPc i (.waiting f)
-          | none =>
-            let f := s.flights.length
-            { s with flights := s.flights ++ [Flight.mk c.key i none], active := insert s.active c.key f,
-                     calls := s.calls ++ [(f, c.q)] }.setPc i (.leading f)
-    | _, _ => s
-  | .resolve f sch a1 a2 =>
-    match s.flights[f]? with
-    | some fl =>
-      match fl.result, s.clients[fl.leader]?, s.pcs[fl.leader]? with
-      | none, some c, some (.leading f') =>
-        if f' = f then
-          let (r, cache') := dialSend cfg c sch a1 a2 s.cache
-          { s with cache := cache', flights := s.flights.set f { fl with result := some r },
-                   active := erase s.active fl.key }.setPc fl.leader (.waiting f)
-        else s
-      | _, _, _ => s
-    | none => s
-  | .wake i =>
-    match s.clients[i]?, s.pcs[i]? with
-    | some c, some (.waiting f) =>
-      match s.flights[f]? with
-      | some fl =>
-        match fl.result with
-        | none => s
-        | some (.err e) => (s.emit i (.error e)).setPc i .done
-        | some (.ok m) =>
-          match lookup s.cache c.key with
-          | some e => (s.emit i (.wrote (cachedReply c e))).setPc i .done
-          | none => (s.emit i (.wrote (sharedReply c m))).setPc i .done
-      | none => s
-    | _, _ => s
-  | .evict k => { s with cache := erase s.cache k }
-
-def run (cfg : Cfg) (s : St) (as : List Act) : St := as.foldl (step cfg) s
-
-/-- the reply a caller of `Handle_` sends when it returns an error (`sendDnsErrorResponse_` with
-SERVFAIL, or `sendDnsTruncatedResponse_`): built from the client's own message -/
-def errorReply (c : Client) : ErrKind → Reply
-  | .truncated => ownReply c 0 true
-  | _ => ownReply c 2 false
-
-end Ctl
-
-end DaeVerif.C09
